@@ -150,7 +150,10 @@ def gen_case(rng, idx, quick):
         pipe["multiscale"] = {"multiscale_method": "fixed_zoom_pyramid", "num_scales": 2, "scale_factor": 2}
     return {"idx": idx, "seed": rng.randrange(1 << 30), "rows": rows, "cols": cols, "bands": bands,
             "georef": rng.random() < 0.5, "mask": rng.random() < 0.3, "nodata": rng.choice([None, None, -9999, "NaN", 7]),
-            "interval": interval, "disp": [dmin, dmax], "pipeline": jw.show(pipe)}
+            "interval": interval, "disp": [dmin, dmax], "pipeline": jw.show(pipe),
+            # a third of the runs the way the shipped samples are used: input paths relative to the working directory
+            # (the folder of the images), the configuration file in ANOTHER folder
+            "relative": idx % 3 == 1}
 
 
 CORPUS = [
@@ -244,6 +247,11 @@ def build_inputs(case, d):
         if case["interval"] == "grids_both":
             write_tif(os.path.join(d, "right_grid.tif"), np.array([-gmax, -gmin]), "int16")
             inp["right"]["disp"] = os.path.join(d, "right_grid.tif")
+    if case.get("relative"):
+        for side in inp.values():
+            for k, v in side.items():
+                if isinstance(v, str) and os.path.dirname(v) == d:
+                    side[k] = "./" + os.path.basename(v)
     return {"input": inp, "pipeline": jw.unshow(copy.deepcopy(case["pipeline"]))}
 
 
@@ -338,9 +346,15 @@ def run_case(ctx, model, case):
 
     d = tempfile.mkdtemp(prefix="pandora_c19_")
     assert not os.path.realpath(d).startswith((os.path.realpath(core.REPO), os.path.realpath(core.VERIF)))
+    cwd0 = os.getcwd()
     try:
         user = build_inputs(case, d)
         cfg_path = os.path.join(d, "user_cfg.json")
+        if case.get("relative"):
+            os.makedirs(os.path.join(d, "json_conf_files"))
+            cfg_path = os.path.join(d, "json_conf_files", "user_cfg.json")
+            os.chdir(d)
+            ctx.count("runs_with_relative_input_paths")
         with open(cfg_path, "w") as f:
             json.dump(user, f)
         rp = dict(case)
@@ -612,6 +626,7 @@ def run_case(ctx, model, case):
                         if "confidence_measure" in left_mem else [],
                         "replay": "accepted, same rasters and configuration"})
     finally:
+        os.chdir(cwd0)
         shutil.rmtree(d, ignore_errors=True)
 
 
